@@ -135,6 +135,16 @@ def replay_adsum(run, tvs):
             run.violation(f"{key}/ad/shape", f"direct-sum ad is {A.shape}, algebra has {E.shape[0]} parameters", {"tv": tv})
         elif np.max(np.abs(A - E)) > TOL:
             run.violation(f"{key}/ad/value", "direct-sum ad differs from the block-diagonal commutator matrix", {"tv": tv, "got": A.tolist()})
+        try:        # the hat matrix of the sum: block diagonal of the factors' hat matrices (matrix offsets, not parameter offsets)
+            Wm = np.array(ca.DM(ca.densify(alg.elem(ca.DM(x)).to_Matrix())))
+            Ww = np.array(tv["wedge"], float)
+            if Wm.shape != Ww.shape or np.max(np.abs(Wm - Ww)) > TOL:
+                run.violation(f"{key}/to_Matrix/value", "direct-sum to_Matrix differs from the block-diagonal matrix of the factors' hat matrices",
+                              {"tv": tv, "got": Wm.tolist()})
+        except NotImplementedError:
+            run.count("skipped_notimplemented")
+        except Exception as e:      # noqa
+            run.violation(f"{key}/to_Matrix/raises:{type(e).__name__}", str(e), {"tv": tv})
 
 
 def dispatch(run, cache, tvs_by):
